@@ -4,6 +4,7 @@ import itertools
 from bibtexparser.library import Library
 from bibtexparser.middlewares import SortBlocksByTypeAndKeyMiddleware
 from bibtexparser.model import (
+    DuplicateBlockKeyBlock,
     DuplicateFieldKeyBlock,
     Entry,
     ExplicitComment,
@@ -52,6 +53,9 @@ NAMES = list(factories())
 ORDERS = [tuple(p) for k in range(0, 6) for p in itertools.permutations(range(5), k)]
 
 
+# orders that also name failed-block classes (any Block subclass may be listed): indices 5.. of TYPES_ALL
+TYPES_ALL = TYPES + [ParsingFailedBlock, DuplicateFieldKeyBlock, DuplicateBlockKeyBlock]
+LONG_ORDERS = [(0, 1, 2, 3, 4, 5), (0, 1, 2, 3, 4, 7), (5, 2), (6, 5, 2, 7), (2, 7, 6), (7,), (0, 1, 2, 3, 4, 5, 6, 7)]
 MID = ["Ea", "Ea2", "Eb", "IC", "Sa", "P"]  # sub-universe for libraries of middling length (5; thorough also 6 and 7)
 MID_ORDERS = [0, 3, 40, 200, 325]
 
@@ -93,8 +97,8 @@ def is_comment(b):
 
 
 def check(names, lib, order, on_top, acc):
-    case = {"library": list(names), "order": [TNAMES[i] for i in order], "comments_on_top": on_top}
-    types = tuple(TYPES[i] for i in order)
+    case = {"library": list(names), "order": [TYPES_ALL[i].__name__ for i in order], "comments_on_top": on_top}
+    types = tuple(TYPES_ALL[i] for i in order)
     before = canon(lib)
     acc.trace()
     try:
@@ -264,7 +268,7 @@ def run_libs(libs, acc):
     for names in libs:
         lib = build(names)
         acc.count("libraries")
-        for order in ORDERS:
+        for order in ORDERS + LONG_ORDERS:
             for on_top in (True, False):
                 if not check(names, lib, order, on_top, acc):
                     lib = build(names)
@@ -309,7 +313,7 @@ def replay(case, acc):
     if "special_library" in case:
         return run_special(acc)
     names = tuple(case["library"])
-    order = tuple(TNAMES.index(t) for t in case["order"])
+    order = tuple([t.__name__ for t in TYPES_ALL].index(t) for t in case["order"])
     check(names, build(names), order, case["comments_on_top"], acc)
 
 
